@@ -850,9 +850,25 @@ func (p *printer) printSemicolonIfNeeded() {
 }
 
 func (p *printer) printSpaceBeforeIdentifier() {
-	if c, _ := utf8.DecodeLastRune(p.js); js_ast.IsIdentifierContinue(c) || p.prevRegExpEnd == len(p.js) {
+	if c, _ := utf8.DecodeLastRune(p.js); js_ast.IsIdentifierContinue(c) || p.prevRegExpEnd == len(p.js) || endsWithIdentifierEscape(p.js) {
 		p.print(" ")
 	}
+}
+
+// With an ASCII-only charset an identifier can end in a "\u{10000}" escape. The
+// closing "}" is not an identifier character, but a word printed right after it
+// (e.g. "in", "of", "as", "from", "instanceof") would still become part of the
+// identifier: "\u{10000}in x" is the identifier "\u{10000}in" followed by "x".
+func endsWithIdentifierEscape(js []byte) bool {
+	n := len(js)
+	if n < 5 || js[n-1] != '}' {
+		return false
+	}
+	i := n - 2
+	for i >= 0 && ((js[i] >= '0' && js[i] <= '9') || (js[i] >= 'a' && js[i] <= 'f') || (js[i] >= 'A' && js[i] <= 'F')) {
+		i--
+	}
+	return i < n-2 && i >= 2 && js[i] == '{' && js[i-1] == 'u' && js[i-2] == '\\'
 }
 
 type fnArgsOpts struct {
